@@ -66,6 +66,17 @@ def rule_shared_handle(ctx):
 
         for p, (duck, conn), h in zip(explore(prog, fac, run2, max_paths=32), sess2, hooks2):
             if not h.parsed:
+                if p.outcome == "return":
+                    # only the engine knows whether a transaction is open: conn.commit() / rollback() always reach it. A flag kept beside
+                    # the engine's state goes stale (a statement that fails inside BEGIN leaves the engine's transaction open)
+                    n += 1
+                    why = [t for t, v in p.assumed][:1]
+                    ctx.ob("C13.d", f"conn.{meth}() reaches the engine", False, "fakesnow/conn.py", why[0] if why else "")
+                    ctx.violation("C13.d", "conn", f"FakeSnowflakeConnection.{meth}", f"{meth}() returns without executing {text}", "fakesnow/conn.py",
+                                  f"conn.{meth}() has a path that returns without sending `{text}` to the engine"
+                                  + (f" (decided by `{why[0]}`)" if why else " (decided by state the connection keeps beside the engine's own)")
+                                  + ": when that state disagrees with the engine — after a statement failed inside BEGIN the engine's transaction is "
+                                    "still open — the work is neither committed nor rolled back, and later statements silently join the old transaction")
                 continue
             n += 1
             parsed = [e for e in p.effects if e[0] == "parse-user"]
